@@ -116,6 +116,16 @@ def defs_unit(tier, seed):
     u.raw("template<typename Meth> struct E<Meth, e<1, 1>> : not_defined {};")
     u.add("use_definitions|method-first", "definition template whose first argument is the method: add_definition of that method, undefined combination skipped",
           "static_assert(std::is_same_v<use_definitions<E, product<types<M>, %s>>, aggregate<M::add_definition<E<M, e<1, 0>>>, M::add_definition<E<M, e<1, 2>>>>>);" % lst(1, 3))
+    # "derives from not_defined" however the derivation is spelled: private base (`class` default), through two mixins (the base
+    # appears twice: not convertible, still derived), indirectly
+    u.raw("template<typename Meth, typename X> struct F { static int fn(A&, A&); };")
+    u.raw("template<typename Meth> class F<Meth, e<1, 0>> : not_defined { public: static int fn(A&, A&); };")
+    u.raw("struct mix1 : not_defined {}; struct mix2 : not_defined {};")
+    u.raw("template<typename Meth> struct F<Meth, e<1, 1>> : mix1, mix2 { static int fn(A&, A&); };")
+    u.raw("struct indirect_nd : mix1 {};")
+    u.raw("template<typename Meth> struct F<Meth, e<1, 2>> : indirect_nd { static int fn(A&, A&); };")
+    u.add("use_definitions|not_defined-forms", "a container that derives from not_defined privately, twice through mix-ins, or indirectly is discarded like one that derives publicly",
+          "static_assert(std::is_same_v<use_definitions<F, product<types<M>, %s>>, aggregate<M::add_definition<F<M, e<1, 3>>>>>);" % lst(1, 4))
     # add_definition wires next iff the container has one
     u.raw("struct WithNext { static M::next_type next; static int fn(A&, A&); }; struct NoNext { static int fn(A&, A&); }; struct WrongNext { static int next; static int fn(A&, A&); };")
     u.add("add_definition|has_next", "container with a `next` of the method's next_type gets the variant that passes &Container::next",
